@@ -52,11 +52,30 @@ class ValidatorModel:
         raise PyRaise(exc)
 
 
+class StampModel:
+    """`command.request_bytes()` of the command in flight: every call returns the frame as it has to go on the wire
+    *now* (for Modbus/TCP: stamped with the next transaction id, proved for the real method in the C03 contract units).
+    Each call yields a new byte string and is logged, so that a transmission can be tied to the call that produced it."""
+    _pyvc_model = True
+
+    def __init__(self, cmd, name):
+        self.cmd, self.name = cmd, name
+
+    def __call__(self):
+        ex = interp.current()
+        g = pg(ex)
+        stamps = g.__dict__.setdefault("stamps", [])
+        b = SBytes.fresh(ex, f"{self.name}_wire{len(stamps)}")
+        stamps.append((self.cmd, b))
+        return b
+
+
 def make_command(ex, name="cmd"):
     from goodwe.protocol import ProtocolCommand
     c = ex.new_object(ProtocolCommand.__new__(ProtocolCommand))
     c.request = SBytes.fresh(ex, name + "_request")
     c.validator = ValidatorModel()
+    c.request_bytes = StampModel(c, name)
     return c
 
 
@@ -166,6 +185,11 @@ def tx_obligations(ex, transport, payload):
     cleared = P._partial_data is None and (P._partial_missing == 0 if isinstance(P._partial_missing, int)
                                            else ex.known(iterm(P._partial_missing) == 0))
     ex.check("C07_C08_fragment_state_cleared_for_every_transmission", bool(cleared))
+    # C03 "a transaction id that changes with every transmission": what goes out is the result of a request_bytes() call
+    # made for this transmission (not the prepared template, not what an earlier attempt sent)
+    stamps = getattr(g, "stamps", [])
+    fresh = bool(stamps) and stamps[-1][1] is payload and not any(p is payload for p in g.tx_log[:-1])
+    ex.check("C03_every_transmission_sends_a_freshly_stamped_request", fresh)
     ex.check("C10_transmission_uses_a_transport_of_the_running_loop", transport.loop is g.loop)
     lk = P._lock
     mine = lk is not None and lk.owner == g.me and (lk.is_locked is True or (
@@ -417,7 +441,12 @@ def send_request_segment(ex, kind, case=None, entry=None):
     g.suspensions.append(rely)
     g.on_tx.append(tx_obligations)
     g.seg_timer = P._timer
-    cmd = make_command(ex, "newcmd")
+    # the command may be the very object the previous request (or the previous attempt of this one) sent: inverter
+    # classes keep their read commands as class constants and send them again and again
+    if P.command is not None and ex.choose(2, tag="same.command.again") == 1:
+        cmd = P.command
+    else:
+        cmd = make_command(ex, "newcmd")
     # requires (single requesting task): the previous request on this object has finished
     if P.response_future is not None:
         ex.assume(mk_bool(iterm(P.response_future.state) != PENDING))
@@ -662,22 +691,31 @@ def command_binding(ex, clsname):
     cmd = ex.call(cls, args, {})
     data = SBytes.fresh(ex, "data")
     ex.inputs["data"] = data
+    fn = 3 if read else (16 if multi else 6)
+
+    def wellformed():
+        if aa55:
+            return contracts.eval_spec_value(ex, cp.wf_aa55, [data, "019A" if read else "02B9"])
+        if "Rtu" in clsname:
+            return contracts.eval_spec_value(ex, cm.wf_rtu, [data, fn, offset, value])
+        return contracts.eval_spec_value(ex, cm.wf_tcp, [data, fn, offset, value])
+
+    def negate(v):
+        return (not v) if isinstance(v, bool) else mk_bool(z3.Not(bterm(v)))
     try:
         res = ex.call(cmd.validator, [data], {})
     except PyRaise as pr:
         from goodwe.exceptions import PartialResponseException, RequestRejectedException
-        ex.check("C01_C04_validator_of_the_command_raises_only_documented_outcomes",
+        ex.check("C01_C02_C04_validator_of_the_command_raises_only_documented_outcomes",
                  isinstance(pr.exc, (PartialResponseException, RequestRejectedException)), detail=repr(pr.exc)[:120])
+        ex.check("C02_wellformed_answer_to_this_very_request_is_accepted", negate(wellformed()),
+                 detail=f"validator raised {type(pr.exc).__name__}")
         return
     t = ex.truth_value(res)
     accepted = t if isinstance(t, bool) else ex.branch(t.t, tag="accepted")
     if not accepted:
+        ex.check("C02_wellformed_answer_to_this_very_request_is_accepted", negate(wellformed()),
+                 detail="validator returned False")
         return
-    fn = 3 if read else (16 if multi else 6)
-    if aa55:
-        ok = contracts.eval_spec_value(ex, cp.wf_aa55, [data, "019A" if read else "02B9"])
-    elif "Rtu" in clsname:
-        ok = contracts.eval_spec_value(ex, cm.wf_rtu, [data, fn, offset, value])
-    else:
-        ok = contracts.eval_spec_value(ex, cm.wf_tcp, [data, fn, offset, value])
-    ex.check("C01_accepted_answer_is_wellformed_for_this_very_request", ok)
+    ex.check("C01_accepted_answer_is_wellformed_for_this_very_request", wellformed())
+    ex.check("C02_wellformed_answer_to_this_very_request_is_accepted", True)
